@@ -179,6 +179,7 @@ fn fallback_val(it: &J) -> Val {
 fn group_default(f: &J) -> Val {
     match (s(f, "kind"), s(f, "arity")) {
         ("switch", _) => Val::Bool(false),
+        ("reqflag", "count") => Val::Count(0),
         ("reqflag", _) => Val::Unit,
         (_, "opt") => Val::Nothing,
         (_, "many") | (_, "some") => Val::List(vec![]),
